@@ -217,7 +217,7 @@ func SimplifyBounds(ctx *OpContext, k Kind, x, y *BoundValue) Value {
 		//     a+1 if b-a == 2
 		//     _|_ if b <= a
 
-		if d.Negative {
+		if d.Sign() < 0 {
 			return errIncompatibleBounds(ctx, k, x, y)
 		}
 		switch diff, err := d.Int64(); {
